@@ -1,6 +1,7 @@
 import SigpyVerif.Model.Py
 import SigpyVerif.Model.Proto
 import SigpyVerif.Model.C10
+import SigpyVerif.Model.C10Nd
 namespace SigpyVerif.Drv.C10
 open SigpyVerif SigpyVerif.Proto
 
@@ -12,6 +13,12 @@ def optNat (toks : List String) (k : String) : Option (Option Nat) :=
 
 def natList (toks : List String) (k : String) : Option (List Nat) :=
   ((kv toks k).bind parseIntList?).bind fun l => if l.all (0 ≤ ·) then some (l.map Int.toNat) else none
+
+/-- a flat row-major array read as a function of the multi-index (zero outside the box) -/
+def ofFlat (shape : List Nat) (data : Array Rat) : List Nat → Rat :=
+  fun idx => if C10.inBoxB shape idx then data.getD (C10.ravelN shape idx) 0 else 0
+
+def prodN (l : List Nat) : Nat := l.foldl (· * ·) 1
 
 /-- protocol handler for property C10 (tokens after the property id). -/
 def handle (toks : List String) : String :=
@@ -54,6 +61,30 @@ def handle (toks : List String) : String :=
     | some h, some g, some lv, some n, some c =>
       if n < 0 then "err bad-op" else s!"ok {fmtRatList (C10.iwt1 h g lv n.toNat c)}"
     | _, _, _, _, _ => "err bad-op"
+  | some "fwtn" =>
+    -- the N-d multi-level model `C10.fwtnM` (= `C10.fwtn`, the definition of `fwtn_isometry/_adjoint/_pr`, by `fwtnM_app`) on a row-major array:
+    -- reply = advertised shape | row-major values over that box
+    match getR "h", getR "g", natList toks "sh", natList toks "ax", optNat toks "level", getR "x" with
+    | some h, some g, some sh, some ax, some lv, some x =>
+      if h.length ≠ g.length ∨ x.length ≠ prodN sh ∨ !(ax.all (· < sh.length)) ∨ !ax.Nodup then "err filter" else
+      let osh := C10.fwtnOutShape h.length ax lv sh
+      let Y := C10.fwtnM (C10.ofList h) (C10.ofList g) h.length ax lv sh (ofFlat sh x.toArray)
+      s!"ok {fmtIntList (osh.map Int.ofNat)} | {fmtRatList ((C10.allIdxN osh).map Y.app)}"
+    | _, _, _, _, _, _ => "err bad-op"
+  | some "iwtn" =>
+    -- `C10.iwtn` on an arbitrary row-major coefficient array of the advertised shape: row-major values over `sh`
+    match getR "h", getR "g", natList toks "sh", natList toks "ax", optNat toks "level", getR "c" with
+    | some h, some g, some sh, some ax, some lv, some c =>
+      let osh := C10.fwtnOutShape h.length ax lv sh
+      if h.length ≠ g.length ∨ c.length ≠ prodN osh ∨ !(ax.all (· < sh.length)) ∨ !ax.Nodup then "err filter" else
+      let X := C10.iwtnM (C10.ofList h) (C10.ofList g) h.length ax lv sh (ofFlat osh c.toArray)
+      s!"ok {fmtRatList ((C10.allIdxN sh).map X.app)}"
+    | _, _, _, _, _, _ => "err bad-op"
+  | some "maxlevel" =>
+    -- `maxLevel n L` (the model of `pywt.dwt_max_level`) for a list of lengths
+    match natList toks "n", (kv toks "L").bind parseInt? with
+    | some ns, some L => s!"ok {fmtIntList (ns.map fun n => Int.ofNat (C10.maxLevel n L.toNat))}"
+    | _, _ => "err bad-op"
   | some "shape" =>
     match natList toks "sh", natList toks "ax", (kv toks "L").bind parseInt?, optNat toks "level" with
     | some sh, some ax, some L, some lv =>
